@@ -402,6 +402,10 @@ fn internal_quantities_match_tex() {
     // same class: `fil l` is fill, `fil l l` is filll (TeX.2021.454 scans each l with scan_keyword)
     cases.push((r"\skip2=0pt plus 1fil l\relax \the\skip2".to_string(), "0.0pt plus 1.0fill".to_string()));
     cases.push((r"\skip2=0pt plus 1fill minus 2fil L l\relax \the\skip2".to_string(), "0.0pt plus 1.0fill minus 2.0filll".to_string()));
+    // same class: a space (here from a macro) before `by`, `plus`, `minus`
+    cases.push((r"\def\s{ }\count1=5 \advance\count1 \s by 2 \the\count1".to_string(), "7".to_string()));
+    cases.push((r"\def\s{ }\skip2=1pt\s\s plus 2pt\relax \the\skip2".to_string(), "1.0pt plus 2.0pt".to_string()));
+    cases.push((r"\def\s{ }\skip2=1pt plus 2pt\s\s minus 3pt\relax \the\skip2".to_string(), "1.0pt plus 2.0pt minus 3.0pt".to_string()));
     let n_cases = cases.len();
     let mut failures = 0;
     for (src, want) in cases {
@@ -416,12 +420,13 @@ fn internal_quantities_match_tex() {
         // the known finding is labelled only when the failure is exactly the one it describes: the keyword after the space is not
         // seen (an error for the missing unit; the l's typeset as text before the value of the glue is printed)
         let known = match &got {
-            Some(Err(_)) => src.contains("=1true ") && want != "!error",
-            Some(Ok(o)) => (src.contains("1fil l\\relax") && strip(o) == "l0.0ptplus1.0fil") || (src.contains("2fil L l\\relax") && strip(o) == "Ll0.0ptplus1.0fillminus2.0fil"),
+            Some(Err(_)) => (src.contains("=1true ") || src.contains("\\s by 2")) && want != "!error",
+            Some(Ok(o)) => (src.contains("1fil l\\relax") && strip(o) == "l0.0ptplus1.0fil") || (src.contains("2fil L l\\relax") && strip(o) == "Ll0.0ptplus1.0fillminus2.0fil")
+                || (src.contains("1pt\\s\\s plus 2pt") && strip(o) == "plus2pt1.0pt") || (src.contains("2pt\\s\\s minus 3pt") && strip(o) == "minus3pt1.0ptplus2.0pt"),
             None => false,
         };
         if known {
-            println!("WITNESS {{\"fn\": \"internal_quantity\", \"class\": \"spaces before a keyword that follows the keyword true or fil are not skipped\", \"source\": \"{}\", \"observed\": \"{}\", \"expected\": \"{want} (TeX.2021.407, 454, 457)\"}}",
+            println!("WITNESS {{\"fn\": \"internal_quantity\", \"class\": \"spaces before a keyword are not skipped\", \"source\": \"{}\", \"observed\": \"{}\", \"expected\": \"{want} (TeX.2021.407, 454, 457)\"}}",
                 src.replace('\\', "\\\\"), obs.replace('\\', "/").replace('"', "'"));
             continue;
         }
